@@ -196,6 +196,13 @@ def Valid : Val → Prop
 
 instance : DecidablePred Valid := fun v => by cases v <;> unfold Valid <;> exact inferInstance
 
+/-- `NewBufferX()` / `NewSizedBufferX(n)`: a buffer with capacity and nothing unread (`buffer.Reset()` after
+    `bytes.NewBuffer(make([]byte, n))`); the constructor bodies are pinned by the declaration-surface tie -/
+def newBuffer : Bytes := []
+def newSized (_ : Nat) : Bytes := []
+/-- `NewReadableBufferX(data)`: the unread bytes are `data` -/
+def newReadable (data : Bytes) : Bytes := data
+
 /-- a typed write on a buffer -/
 def write (v : Val) (buf : Bytes) : Out Unit × Bytes :=
   if writeOk v then (.ok (), buf ++ enc v) else (.err .sizeLimit, buf)
@@ -269,6 +276,49 @@ def readAll : List Ty → Bytes → List (Out Val) × Bytes
 def writeAll : List Val → Bytes → Bytes
   | [], buf => buf
   | v :: vs, buf => writeAll vs (write v buf).2
+
+/-! ### where the Go code could panic
+
+The readers above cannot express a Go panic. The places of `bufferx.go` that *could* panic are: `buffer.Next(n)` with a
+negative `n` (slice bounds), `make([]byte, n)` with a negative `n`, and — for `ReWrite` — the slice expression `buf[pos:]`.
+`decBufP` re-runs the typed reads with these primitives made partial (`none` = panic) and with the `int(n)` conversion of
+the `uint32` length field made explicit (`intBits` = width of Go's `int`, regenerated into `Nv.Gen.C10.intBits`). -/
+
+/-- `int(n)` for a `uint32` value `n` on a platform whose `int` has `intBits` bits -/
+def goInt (intBits : Nat) (n : Nat) : Int :=
+  if n < 2 ^ (intBits - 1) then (n : Int) else (n : Int) - ((2 ^ intBits : Nat) : Int)
+
+/-- `buffer.Next(n)`: at most `n` bytes; panics for `n < 0` -/
+def goNext (n : Int) (bs : Bytes) : Option (Bytes × Bytes) :=
+  if n < 0 then none else some (bs.take n.toNat, bs.drop n.toNat)
+
+/-- `make([]byte, n)`: panics for `n < 0` -/
+def goMake (n : Int) : Option Nat := if n < 0 then none else some n.toNat
+
+/-- `data = buffer.Next(size); if len(data) != size { ErrByteBufferEmpty }` -/
+def nextChecked (size : Int) (bs : Bytes) : Option (Out Bytes × Bytes) :=
+  (goNext size bs).map (fun r => if (r.1.length : Int) ≠ size then (.err .empty, r.2) else (.ok r.1, r.2))
+
+/-- typed read on a BufferX with the panicking primitives explicit: `none` = the Go code panics -/
+def decBufP (intBits : Nat) (ty : Ty) (bs : Bytes) : Option (Out Val × Bytes) :=
+  match ty with
+  | .str =>
+    match bufFixed 4 bs with
+    | (.err e, rest) => some (.err e, rest)
+    | (.ok n, rest) => (nextChecked (goInt intBits (n % 2 ^ 32)) rest).map (fun r => (r.1.map .str, r.2))
+  | .lstr limit =>
+    match bufFixed 4 bs with
+    | (.err e, rest) => some (.err e, rest)
+    | (.ok n, rest) =>
+      if n % 2 ^ 32 > limit.toNat then some (.err .sizeLimit, rest)
+      else (nextChecked (goInt intBits (n % 2 ^ 32)) rest).map (fun r => (r.1.map (.lstr limit), r.2))
+  | .readN n =>
+    if n ≤ 0 then some (.err .wrongNum, bs)
+    else (goMake n).map (fun k => let r := bufRead k bs; (r.1.map .raw, r.2))
+  | .zreadN n =>
+    if n < 0 then some (.err .wrongNum, bs)
+    else (nextChecked n bs).map (fun r => (r.1.map .raw, r.2))
+  | ty => some (decBuf ty bs)
 
 /-! ### histories: writes and reads interleaved -/
 
@@ -357,6 +407,10 @@ def streamRead (c : Cfg) (n : Nat) (s : Src) : Out Bytes × Src :=
 /-- `ReaderX.ReadN(n)` -/
 def streamReadN (c : Cfg) (n : Int) (s : Src) : Out Bytes × Src :=
   if n ≤ 0 then (.err .wrongNum, s) else streamRead c n.toNat s
+
+/-- `ReaderX.ReadN(n)` with `make` explicit (the only panicking primitive of ioreader.go) -/
+def streamReadNP (c : Cfg) (n : Int) (s : Src) : Option (Out Bytes × Src) :=
+  if n ≤ 0 then some (.err .wrongNum, s) else (goMake n).map (fun k => streamRead c k s)
 
 /-- `ReaderX.ZReadN(n)` -/
 def streamZReadN (c : Cfg) (n : Int) (s : Src) : Out Bytes × Src :=
